@@ -45,7 +45,7 @@ PROPS["C05"] = {
     "units": [{
         "pkg": "command",
         "tests": [T("TestC05Fillers", {"checks": 10000, "shards": 2}, {"checks": 60000, "shards": 8}),
-                  T("TestC05Spoofed", {"checks": 12, "shards": 3, "env": {"C05_FILLS": 150000}},
+                  T("TestC05Spoofed", {"checks": 60, "shards": 3, "env": {"C05_FILLS": 150000}},
                     {"checks": 40, "shards": 8, "env": {"C05_FILLS": 400000}}),
                   T("TestC05Commands", {"checks": 500, "shards": 8}, {"checks": 3000, "shards": 16})],
     }, {
@@ -150,6 +150,8 @@ PROPS["C08"] = {
 
 PROPS["C01"] = {
     "level": "exploration",
+    "needs_sx_binary": True,
+    "kit_tools": ["nsrun"],
     "assumptions": ["the virtual wire (verifkit/vwire) replaces only pkg/packet/afpacket/readwriter.go; every frame handed to WritePacketData is observed",
                     "interface pinned with -i lo, source with --srcip/--srcmac; subnets wider than /22 are covered at generator level only"],
     "units": [{
@@ -161,6 +163,7 @@ PROPS["C01"] = {
                   T("TestC01Generators", {"checks": 100, "shards": 4, "env": {"C01_MINBITS": 14, "C01_PRODUCT_LOG2": 19}},
                     {"checks": 300, "shards": 16, "env": {"C01_MINBITS": 10, "C01_PRODUCT_LOG2": 23}}),
                   T("TestC01HugePrefix", {"checks": 24, "shards": 2}, {"checks": 300, "shards": 8}),
+                  T("TestC01Netns", {"checks": 8, "shards": 6}, {"checks": 120, "shards": 12}),
                   {"name": "TestC01BigSubnet", "quick": {"skip": True}, "variant": "b8",
                    "thorough": {"checks": 1, "env": {"C01_BIG_BITS": 8}, "timeout": 3000}},
                   {"name": "TestC01BigSubnet", "quick": {"skip": True}, "variant": "b5",
